@@ -8,7 +8,7 @@ def handleLine (line : String) : Verdict :=
   match lhs with
   | [] => .bad "empty"
   | op :: args =>
-    if op.startsWith "ops." then handleOps op args impl
+    if op.startsWith "ops." then handleOps3 op args impl
     else .bad s!"unknown stream {op}"
 
 structure Stats where
